@@ -35,12 +35,12 @@ const c16Rich = `{"swagger":"2.0","info":{"title":"t","version":"1"},"consumes":
 // c16Dirty: unsorted lists with repeated entries at document and operation level (a getter that sorts, compacts or
 // de-duplicates a list in place modifies the document), operations declaring only one of consumes/produces.
 const c16Dirty = `{"swagger":"2.0","info":{"title":"t","version":"1"},"schemes":["https","http","https"],"consumes":["y/y","b/b","y/y"],"produces":["z/z","a/a","z/z","m/m"],
-"security":[{"k":["s2","s1","s2"]},{"j":[]},{"k":["s2","s1","s2"]},{"k":["s2","s1"],"j":[]}],"securityDefinitions":{"k":{"type":"oauth2","flow":"implicit","authorizationUrl":"http://x","scopes":{"s1":"d","s2":"e"}},"j":{"type":"basic"}},
+"security":[{"k":["s2","s1","s2"]},{"j":[]},{"k":["s2","s1","s2"]},{"k":["s2","s1"],"j":[]},{"j":null}],"securityDefinitions":{"k":{"type":"oauth2","flow":"implicit","authorizationUrl":"http://x","scopes":{"s1":"d","s2":"e"}},"j":{"type":"basic"}},
 "tags":[{"name":"t2"},{"name":"t1"},{"name":"t2"}],
 "paths":{"/p/{id}":{"parameters":[{"name":"id","in":"path","required":true,"type":"string","enum":["z","a","z"]}],
  "get":{"operationId":"getP","tags":["t2","t1","t2"],"consumes":["q/q","c/c","q/q"],"security":[{"j":[]},{"k":["s1"]},{"j":[]},{"j":[],"k":["s2","s1"]}],"parameters":[{"name":"q","in":"query","type":"array","items":{"type":"string","enum":["v","u","v"]}}],
   "responses":{"200":{"description":"ok","headers":{"X-H":{"type":"string","enum":["h2","h1","h2"]}},"schema":{"type":"string","enum":["n2","n1","n2"]}}}},
- "put":{"operationId":"putP","produces":["w/w","d/d","w/w"],"responses":{"200":{"description":"ok"}}},
+ "put":{"operationId":"putP","produces":["w/w","d/d","w/w"],"security":[{"k":null},{"j":null,"k":["s1"]}],"responses":{"200":{"description":"ok"}}},
  "post":{"operationId":"postP","consumes":[],"produces":[],"security":[],"responses":{"201":{"description":"created"}}}},
  "/q":{"options":{"operationId":"optQ","responses":{"200":{"description":"ok"}}}}},
 "definitions":{"pet":{"type":"object","required":["b","a","b"],"properties":{"a":{"type":"string","enum":["n2","n1","n2"]},"b":{"type":"integer"}}}}}`
